@@ -95,7 +95,7 @@ theorem tactic3_sound (t : PTerm) (H : TL) (xs : List Var) (refine : Bool) (r : 
   Elim.tactic3_sound tactic3_fresh_ok t H xs refine r h
 
 /-- the trivial tactic -/
-theorem tactic6_sound (O : Oracle) (hint : PTerm → TL → Bool → Option (List Nat)) : TacSound (tactic O false hint) 6 := by
+theorem tactic6_sound (O : Oracle) (hint : PTerm → TL → List Var → Bool → Option (List Nat)) : TacSound (tactic O false hint) 6 := by
   intro t H xs refine r h v _
   simp only [tactic] at h
   injection h with h; injection h with h; subst h
@@ -103,7 +103,7 @@ theorem tactic6_sound (O : Oracle) (hint : PTerm → TL → Bool → Option (Lis
 
 /-- every entry of the real tactic table is sound, for every certified oracle and every hint function (a number
     outside 1..6 is a `KeyError`, never a result) -/
-theorem driver_tactics_sound (O : Oracle) (hO : O.Certified) (hint : PTerm → TL → Bool → Option (List Nat)) :
+theorem driver_tactics_sound (O : Oracle) (hO : O.Certified) (hint : PTerm → TL → List Var → Bool → Option (List Nat)) :
     ∀ k, TacSound (tactic O false hint) k := by
   intro k t H xs refine r h
   unfold tactic at h
@@ -117,14 +117,14 @@ theorem driver_tactics_sound (O : Oracle) (hO : O.Certified) (hint : PTerm → T
   · cases h
 
 /-- the property for the real table, refining: every list, context, variable list, order and flag -/
-theorem elimRefine_sound_real (O : Oracle) (hO : O.Certified) (tie : PTerm → Bool) (hint : PTerm → TL → Bool → Option (List Nat))
+theorem elimRefine_sound_real (O : Oracle) (hO : O.Certified) (tie : PTerm → Bool) (hint : PTerm → TL → List Var → Bool → Option (List Nat))
     (l ctx : TL) (xs : List Var) (simp : Bool) (ord : List Nat) (r : TL) (used : List Int)
     (h : elimRefine O tie (tactic O false hint) l ctx xs simp ord = .ok (r, used)) :
     ∀ v, TL.holds ctx v → TL.holds r v → TL.holds l v :=
   Elim.elimRefine_sound O hO tie _ l ctx xs simp ord (fun j _ => driver_tactics_sound O hO hint j) r used h
 
 /-- the property for the real table, relaxing -/
-theorem elimRelax_sound_real (O : Oracle) (hO : O.Certified) (tie : PTerm → Bool) (hint : PTerm → TL → Bool → Option (List Nat))
+theorem elimRelax_sound_real (O : Oracle) (hO : O.Certified) (tie : PTerm → Bool) (hint : PTerm → TL → List Var → Bool → Option (List Nat))
     (l ctx : TL) (xs : List Var) (simp : Bool) (ord : List Nat) (r : TL) (used : List Int)
     (h : elimRelax O tie (tactic O false hint) l ctx xs simp ord = .ok (r, used)) :
     (∀ v, TL.holds ctx v → TL.holds l v → TL.holds r v) ∧ ∀ t ∈ r, ∀ x ∈ t.vars, x ∉ xs :=
@@ -171,11 +171,11 @@ theorem mute_certified : mute.Certified where
   inf := by intro _ _ h; cases h
   unb := by intro _ _ h; cases h
 /-- the whole refinement loop on the real table, default order (premise of `elimRefine_sound_real`) -/
-example : elimRefine mute (fun _ => false) (tactic mute false (fun _ _ _ => none)) [PTerm.mk' [(3, 1), (1, 1)] 4]
+example : elimRefine mute (fun _ => false) (tactic mute false (fun _ _ _ _ => none)) [PTerm.mk' [(3, 1), (1, 1)] 4]
     [PTerm.mk' [(3, 1), (2, -1)] 1] [3] false [1, 2, 3, 4, 5] = .ok ([⟨[(1, 1), (2, 1)], 3⟩], [1]) := by
   decide +kernel
 /-- the relaxation loop drops a term it cannot relax (premise of `elimRelax_sound_real`) -/
-example : elimRelax mute (fun _ => false) (tactic mute false (fun _ _ _ => none)) [PTerm.mk' [(3, 1), (1, 1)] 4, PTerm.mk' [(1, 1)] 7]
+example : elimRelax mute (fun _ => false) (tactic mute false (fun _ _ _ _ => none)) [PTerm.mk' [(3, 1), (1, 1)] 4, PTerm.mk' [(1, 1)] 7]
     [PTerm.mk' [(3, 1), (2, -1)] 1] [3] false [1, 3, 4] = .ok ([⟨[(1, 1)], 7⟩], [-1]) := by
   decide +kernel
 
